@@ -102,6 +102,32 @@ RScale(k, a) == <<PScale(k, a[1]), a[2]>>
 RFromJson(j) == <<PFromSeq(j.n), PFromSeq(j.d)>>
 
 (***************************************************************************)
+(* Evaluation at rational points.  A rational NUMBER is a pair <<n, d>> of  *)
+(* integers, d # 0 (not reduced); env : variable id -> rational number.      *)
+(***************************************************************************)
+RECURSIVE GCD(_, _)
+AbsI(a) == IF a < 0 THEN 0 - a ELSE a
+GCD(a, b) == IF b = 0 THEN AbsI(a) ELSE GCD(AbsI(b), AbsI(a) % AbsI(b))
+\* lowest terms, positive denominator (keeps the 32-bit integers of TLC small); <<x, 0>> stays a pole
+QNorm(q) == IF q[2] = 0 THEN <<1, 0>> ELSE
+            LET g == GCD(q[1], q[2])
+                s == IF q[2] < 0 THEN -1 ELSE 1
+            IN  IF g = 0 THEN <<0, 1>> ELSE <<s * (q[1] \div g), s * (q[2] \div g)>>
+QAdd(a, b) == IF a[2] = 0 \/ b[2] = 0 THEN <<1, 0>> ELSE
+              IF a[2] = b[2] THEN QNorm(<<a[1] + b[1], a[2]>>) ELSE QNorm(<<a[1] * b[2] + b[1] * a[2], a[2] * b[2]>>)
+QMul(a, b) == IF a[2] = 0 \/ b[2] = 0 THEN <<1, 0>> ELSE QNorm(<<a[1] * b[1], a[2] * b[2]>>)
+QEq(a, b) == a[1] * b[2] = b[1] * a[2]
+RECURSIVE MonoEvalQ(_, _)
+MonoEvalQ(m, env) == IF m = <<>> THEN <<1, 1>> ELSE QMul(env[Head(m)], MonoEvalQ(Tail(m), env))
+PEvalQ(p, env) == FoldSet(LAMBDA m, acc : QAdd(QMul(<<p[m], 1>>, MonoEvalQ(m, env)), acc), <<0, 1>>, DOMAIN p)
+\* value of the rational function r = <<num, den>> at env; <<x, 0>> signals a pole
+REvalQ(r, env) == LET n == PEvalQ(r[1], env) d == PEvalQ(r[2], env) IN
+                  IF d[1] = 0 THEN <<1, 0>> ELSE QNorm(<<n[1] * d[2], n[2] * d[1]>>)
+\* a constant rational function as a rational number
+RToQ(r) == <<PCoef(r[1], <<>>), PCoef(r[2], <<>>)>>
+RIsConst(r) == PIsConst(r[1]) /\ PIsConst(r[2])
+
+(***************************************************************************)
 (* Ring laws on a small generated carrier, checked by TLC (MC_PolyRing).   *)
 (***************************************************************************)
 SmallPolys == {PZero, POne, PConst(-1), PConst(2), PVar(1), PVar(2),
